@@ -380,11 +380,13 @@ Section Univ.
   Variable succs : nat -> list nat.
   Variable subj : nat -> option nat.
   Variable sk : nat -> bool.
+  Variable bad : nat -> bool.
   Variable dflt : nat -> bool.
 
   Notation visit := (visit mf succs).
   Notation index_all := (index_all N mf succs).
-  Notation st_push := (st_push mf).
+  Notation st_push := (st_push mf bad).
+  Notation st_tagop := (st_tagop true).
   Notation delete1 := (delete1 succs).
   Notation delete_loop := (delete_loop N mf succs subj true).
   Notation st_delete := (st_delete N mf succs subj true).
@@ -393,8 +395,8 @@ Section Univ.
   Notation gc_rounds := (gc_rounds N mf succs subj sk).
   Notation st_gc := (st_gc N mf succs subj sk true true true).
   Notation reopen := (reopen N mf succs).
-  Notation step := (step N mf succs subj sk true true true true).
-  Notation run := (run N mf succs subj sk true true true true).
+  Notation step := (step N mf succs subj sk bad true true true true true).
+  Notation run := (run N mf succs subj sk bad true true true true true).
   Notation obs_equiv := (obs_equiv N succs dflt).
   Notation wf_op := (wf_op mf).
   Notation wf_history := (wf_history mf).
@@ -582,7 +584,8 @@ Section Univ.
   (* ----- Push ----- *)
   Lemma push_good cfg o k s : Good cfg s -> Good cfg (fst (st_push cfg o k s)).
   Proof.
-    intros G. unfold st_push. destruct (mem k (blobs s)) eqn:M; [exact G|].
+    intros G. unfold OciIndex.st_push. destruct (mem k (blobs s)) eqn:M; [exact G|].
+    destruct (bad k); [exact G|].
     destruct G as [H S]. destruct (mf k) eqn:Mk; simpl.
     - unfold st_tag. apply good_save. unfold Inv, idx. simpl.
       unfold is_digest_ref. simpl. rewrite Nat.eqb_refl. simpl.
@@ -606,10 +609,15 @@ Section Univ.
       + intros k' Mk' [<-|I]; [congruence|]. apply In_add. right. eapply inv_g2b; eauto.
   Qed.
 
-  Lemma tagop_good cfg o d r s : Good cfg s -> wf_tag d r -> Good cfg (fst (st_tagop cfg o d r s)).
+  Lemma tagop_good cfg o d r s : Good cfg s -> Good cfg (fst (st_tagop cfg o d r s)).
   Proof.
-    intros G W. unfold st_tagop. destruct (mem (d_node d) (blobs s)) eqn:M; [|exact G].
-    simpl. apply st_tag_good; auto. apply G. now apply mem_In.
+    intros G. unfold OciIndex.st_tagop. simpl.
+    destruct (negb match r with RDig k => Nat.eqb k (d_node d) | RTag _ => true end) eqn:W; [exact G|].
+    destruct (mem (d_node d) (blobs s)) eqn:M; [|exact G].
+    simpl. apply st_tag_good.
+    - apply G.
+    - now apply mem_In.
+    - destruct r as [t|k]; simpl; auto. apply negb_false_iff in W. now apply Nat.eqb_eq in W.
   Qed.
 
   (* ----- Untag ----- *)
@@ -1165,7 +1173,7 @@ Lemma refuted_gc_not_saved :
   exists (N : nat) (mf : nat -> bool) (succs : nat -> list nat) (subj : nat -> option nat)
          (sk dflt : nat -> bool) (cfg : config) (h : list (op * orders)),
     autosave cfg = true /\ wf_history mf h /\
-    let s := run N mf succs subj sk false true true true cfg h store_empty in
+    let s := run N mf succs subj sk (fun _ => false) false true true true true cfg h store_empty in
     obs_resolve_dig dflt (reopen N mf succs s) 0 <> obs_resolve_dig dflt s 0 /\ disk_valid s = false.
 Proof.
   exists 1, (fun _ => true), (fun _ => []), (fun _ => None), (fun _ => false), (fun _ => false),
@@ -1182,7 +1190,7 @@ Lemma refuted_gc_drops_digest_ref :
   exists (N : nat) (mf : nat -> bool) (succs : nat -> list nat) (subj : nat -> option nat)
          (sk dflt : nat -> bool) (cfg : config) (h : list (op * orders)),
     autosave cfg = true /\ wf_history mf h /\ (forall k, mf k = false -> succs k = []) /\
-    let s := run N mf succs subj sk true false true true cfg h store_empty in
+    let s := run N mf succs subj sk (fun _ => false) true false true true true cfg h store_empty in
     obs_preds N succs (reopen N mf succs s) 0 <> obs_preds N succs s 0.
 Proof.
   exists 3, ex_mf, ex_succs, (fun _ => None), (fun _ => true), (fun _ => false),
@@ -1203,7 +1211,7 @@ Definition ex_hist : list (op * orders) :=
     (ODelete 2, mkOrd [1] [] [] [] [([1], [2;0])]); (OReopen, ord0); (OPush 2, ord0) ].
 Lemma example_history :
   wf_history ex_mf ex_hist /\ (forall k, ex_mf k = false -> ex_succs k = []) /\
-  let s := run 3 ex_mf ex_succs (fun _ => None) (fun _ => true) true true true true ex_cfg ex_hist store_empty in
+  let s := run 3 ex_mf ex_succs (fun _ => None) (fun _ => true) (fun _ => false) true true true true true ex_cfg ex_hist store_empty in
   obs_tags 3 s = [0] /\ obs_resolve_tag s 0 = Some (mkDesc 1 2 (Some (RTag 0))) /\
   obs_preds 3 ex_succs s 1 = [2] /\ obs_preds 3 ex_succs s 0 = [1] /\
   obs_preds 3 ex_succs (reopen 3 ex_mf ex_succs s) 0 = [1] /\ disk_valid s = true.
@@ -1213,24 +1221,27 @@ Proof.
   - vm_compute. repeat split.
 Qed.
 Lemma example_repaired :
-  let s := run 3 ex_mf ex_succs (fun _ => None) (fun _ => true) true true true true ex_cfg
+  let s := run 3 ex_mf ex_succs (fun _ => None) (fun _ => true) (fun _ => false) true true true true true ex_cfg
              (ex_plain_hist [OPush 1; OPush 2; OTag (plain 2) (RTag 0); OGC; ODelete 2]) store_empty in
   obs_preds 3 ex_succs (reopen 3 ex_mf ex_succs s) 0 = [1] /\ obs_preds 3 ex_succs s 0 = [1].
 Proof. vm_compute. split; reflexivity. Qed.
 
-(* a tag name that is the digest string of another node breaks J2 and the
-   equivalence: why [wf_history] is needed *)
-Lemma inconsistent_reference_example :
-  exists h, ~ wf_history (fun _ => true) h /\
-    let s := run 2 (fun _ => true) (fun _ => []) (fun _ => None) (fun _ => true) true true true true ex_cfg h store_empty in
-    obs_resolve_dig (fun _ => false) (reopen 2 (fun _ => true) (fun _ => []) s) 1 <> obs_resolve_dig (fun _ => false) s 1.
-Proof.
-  exists (ex_plain_hist [OPush 0; OTag (plain 0) (RDig 1)]).
-  split.
-  - intro W. inversion W as [|? ? _ W2]; subst. inversion W2 as [|? ? W3 _]; subst.
-    simpl in W3. discriminate.
-  - vm_compute. discriminate.
-Qed.
+(* The code as found accepts a reference that is the digest string of OTHER stored content
+   (validateReference only refuses ""): Tag(m1, digest(m2)) replaces m2's digest entry, the
+   reopened store no longer indexes m2 (Predecessors of its layer differ; a later GC would
+   collect it).  The repaired Tag refuses it. *)
+Definition ex2_mf (k : nat) := match k with 1 | 2 => true | _ => false end.
+Definition ex2_succs (k : nat) := match k with 2 => [0] | _ => [] end.
+Lemma refuted_foreign_digest_reference :
+  let h := ex_plain_hist [OPush 1; OPush 2; OTag (plain 1) (RDig 2)] in
+  let run' := fun fixRef => run 3 ex2_mf ex2_succs (fun _ => None) (fun _ => true) (fun _ => false)
+                                true true true true fixRef ex_cfg in
+  (let s := run' false h store_empty in
+   obs_preds 3 ex2_succs s 0 = [2] /\ obs_preds 3 ex2_succs (reopen 3 ex2_mf ex2_succs s) 0 = []) /\
+  (let s := run' true (ex_plain_hist [OPush 1; OPush 2]) store_empty in
+   snd (step 3 ex2_mf ex2_succs (fun _ => None) (fun _ => true) (fun _ => false) true true true true true
+             ex_cfg s (OTag (plain 1) (RDig 2), ord0)) = RInvalidReference).
+Proof. vm_compute. repeat split. Qed.
 
 (* F1 (C09): with the referrer pass as found, GC never returns for an untagged manifest
    whose subject is not in the rebuilt graph; the repaired pass returns and collects it *)
@@ -1238,8 +1249,8 @@ Lemma prefix_gc_hangs :
   let mf := fun k => Nat.eqb k 1 in
   let succs := fun k : nat => if Nat.eqb k 1 then [0] else [] in
   let subj := fun k : nat => if Nat.eqb k 1 then Some 0 else None in
-  let s1 := run 2 mf succs subj mf true true false true ex_cfg (ex_plain_hist [OPush 1]) store_empty in
-  snd (step 2 mf succs subj mf true true false true ex_cfg s1 (OGC, ord0)) = RHang /\
-  let r := step 2 mf succs subj mf true true true true ex_cfg s1 (OGC, ord0) in
+  let s1 := run 2 mf succs subj mf (fun _ => false) true true false true true ex_cfg (ex_plain_hist [OPush 1]) store_empty in
+  snd (step 2 mf succs subj mf (fun _ => false) true true false true true ex_cfg s1 (OGC, ord0)) = RHang /\
+  let r := step 2 mf succs subj mf (fun _ => false) true true true true true ex_cfg s1 (OGC, ord0) in
   snd r = ROk /\ obs_exists (fst r) 1 = false.
 Proof. vm_compute. repeat split. Qed.
